@@ -33,7 +33,7 @@ func runC20(c *core.Ctx) {
 		dr := callVertices(g, "pdf.(*FileInfo).doRead")
 		if len(dr) != 1 {
 			o.Count(1)
-			o.Fail("expected one doRead call, found %d", len(dr))
+			o.Unrec("expected one doRead call, found %d", len(dr))
 			return
 		}
 		o.At(fn.Site(dr[0].Call, "parse candidate"))
@@ -285,7 +285,7 @@ func runC20(c *core.Ctx) {
 		finds := callVerticesSuffix(g, ".Find")
 		if len(finds) != 2 {
 			o.Count(1)
-			o.Fail("expected the header search and the marker search, found %d Find calls", len(finds))
+			o.Unrec("expected the header search and the marker search, found %d Find calls", len(finds))
 			return
 		}
 		marker := finds[1]
@@ -350,7 +350,7 @@ func runC20(c *core.Ctx) {
 		st := mapStores(g, xref)
 		if len(st) != 1 {
 			o.Count(1)
-			o.Fail("expected one store into the rebuilt table")
+			o.Unrec("expected one store into the rebuilt table")
 			return
 		}
 		o.At(fn.Site(st[0].Stmt, "entry stored"))
@@ -385,7 +385,7 @@ func runC20(c *core.Ctx) {
 		ck := callVertices(g, "pdf.(*FileInfo).checkObjects")
 		o.Count(3)
 		if len(lo) != 1 || len(ix) != 1 || len(ck) != 1 {
-			o.Fail("expected locateObjects, indexObjects and checkObjects once each")
+			o.Unrec("expected locateObjects, indexObjects and checkObjects once each")
 			return
 		}
 		o.Require(g.Dominates(lo[0].V, ix[0].V) && g.Dominates(ix[0].V, ck[0].V), "the phases are out of order")
